@@ -133,4 +133,27 @@ theorem no_state_hidden_in_closures : GenTrace.closureCaptures = [] := by decide
 theorem table_nonempty : 200 ≤ GenTrace.methods.length ∧
     GenTrace.methods.any (fun m => m.cls == "Chain" && m.name == "transform") = true := by decide +kernel
 
+/-! ## Audit (g27): non-vacuity of the hypothesis sets used above -/
+section Audit
+/-- the hypothesis set of `every_method_noninterferent` is satisfiable on a GENERATED method with a non-degenerate
+semantics, and the conclusion is not the `none, none => True` arm: for `Chain.transform` of the regenerated table under the
+toy semantics (A1/A2 hold for it at every staging environment), both runs FINISH with fuel 20. -/
+theorem every_method_audit_instance :
+    ∃ m ∈ GenTrace.methods, m.cls = "Chain" ∧ m.name = "transform" ∧
+      EvOK Toy.sem (stageEnv m.tracedParams m.body) ∧
+      (exec Toy.sem 20 Toy.σa m.body).isSome = true ∧ (exec Toy.sem 20 Toy.σb m.body).isSome = true ∧
+      (exec Toy.sem 20 Toy.σa m.body).map (·.path) = (exec Toy.sem 20 Toy.σb m.body).map (·.path) := by
+  have hf : (GenTrace.methods.find? (fun m => m.cls == "Chain" && m.name == "transform")).isSome = true := by decide +kernel
+  obtain ⟨m, hm⟩ := Option.isSome_iff_exists.mp hf
+  have hmem := List.mem_of_find?_eq_some hm
+  have hp := List.find?_some hm
+  simp only [Bool.and_eq_true, beq_iff_eq] at hp
+  refine ⟨m, hmem, hp.1, hp.2, Toy.toy_evOK _, ?_⟩
+  have key : ∀ m' ∈ GenTrace.methods.find? (fun m => m.cls == "Chain" && m.name == "transform"),
+      (exec Toy.sem 20 Toy.σa m'.body).isSome = true ∧ (exec Toy.sem 20 Toy.σb m'.body).isSome = true ∧
+      (exec Toy.sem 20 Toy.σa m'.body).map (·.path) = (exec Toy.sem 20 Toy.σb m'.body).map (·.path) := by
+    decide +kernel
+  exact key m hm
+end Audit
+
 end C14
